@@ -67,6 +67,8 @@ def second_moment(amp, ps):
 def chk(case, acc, seed):
     shape, seg, s, via = tuple(case['shape']), case['seg'], case['scale'], case['via']
     p = plane(shape, seg, seed)
+    if case.get('used_first'):
+        psf(p)                      # the plane has already been used in a propagation before it is resampled
     d0 = pdig(p)
     try:
         q = p.rescale(s) if via == 'rescale' else p.resample(DX / s)
@@ -167,6 +169,7 @@ def t_shape(arg, acc):
             for via in ('rescale', 'resample'):
                 acc.transitions += 1
                 chk({'kind': 'resample', 'shape': arg['shape'], 'seg': seg, 'scale': s, 'via': via}, acc, arg['seed'])
+                chk({'kind': 'resample', 'shape': arg['shape'], 'seg': seg, 'scale': s, 'via': via, 'used_first': True}, acc, arg['seed'])
     chk_refuse({'kind': 'refuse'}, acc, arg['seed'])
 
 
